@@ -213,10 +213,14 @@ inductive ParseFloatRes where
   | unmodelled
   deriving Inhabited
 
-/-- `strconv.ParseFloat(s, 64)` on the inputs for which the answer does not depend on the
-rounding algorithm: `[+-]digits[.digits]` (≤ 18 digits) denoting a dyadic rational with a
-numerator below 2^53 (exactly representable: every correctly rounded parser returns it), and the
-strings that cannot start a number at all (`invalid syntax`). -/
+/-- `strconv.ParseFloat(s, 64)` (`atof64`: `special`, `readFloat`, the final `n != len(s)` test) on the
+inputs for which the answer does not depend on the rounding algorithm:
+* `[+-] digits [. digits]` with at least one digit (`5.`, `.5` included), at most 18 digits, denoting a
+  dyadic rational with a numerator below 2^53: exactly representable, every correctly rounded parser returns it;
+* `invalid syntax`: the empty string, a first character that cannot start a number, no digit at all
+  (`+`, `.`, `-.`), or such a number followed by a character that `readFloat` does not consume
+  (anything but a digit, `e`, `E`, `_`, and `x`, `X`, `p`, `P`, which are left unmodelled);
+* everything else (exponents, hex, underscores, inf / nan, long or non-dyadic mantissas): unmodelled. -/
 def goParseFloat (s : List Char) : ParseFloatRes :=
   match s with
   | [] => .syntaxErr
@@ -224,21 +228,156 @@ def goParseFloat (s : List Char) : ParseFloatRes :=
     if !("+-.0123456789iInN".toList.contains c) then .syntaxErr
     else
       let (neg, body) := if c == '+' then (false, rest) else if c == '-' then (true, rest) else (false, s)
-      let ip := body.takeWhile (· != '.')
-      let afterIp := body.dropWhile (· != '.')
-      let fp := afterIp.drop 1
-      let shapeOk := allDigits ip && (afterIp.isEmpty || allDigits fp) && ip.length + fp.length ≤ 18
-      if !shapeOk then .unmodelled
+      if (match body with | b :: _ => "iInN".toList.contains b | [] => false) then .unmodelled   -- `special`
       else
-        let e := fp.length
-        let m := digitsVal (ip ++ fp)          -- value = m / 10^e
-        if m % (5 ^ e) != 0 then .unmodelled
+        let isDigit := fun (ch : Char) => '0' ≤ ch && ch ≤ '9'
+        let ip := body.takeWhile isDigit
+        let afterIp := body.drop ip.length
+        let (fp, tail) : List Char × List Char := match afterIp with
+          | '.' :: r => (r.takeWhile isDigit, r.drop (r.takeWhile isDigit).length)
+          | _ => ([], afterIp)
+        if ip.isEmpty && fp.isEmpty then
+          -- no digit: `readFloat` fails unless an underscore was skipped before the test
+          if (match afterIp with | '_' :: _ => true | '.' :: '_' :: _ => true | _ => false) then .unmodelled else .syntaxErr
         else
-          let m' := m / (5 ^ e)                -- value = m' / 2^e
-          if m' ≥ 9007199254740992 then .unmodelled
-          else
-            let f := (Float.ofNat m').scaleB (-(e : Int))
-            .ok (if neg then -f else f)
+          match tail with
+          | t :: _ =>
+            if "eE_xXpP".toList.contains t then .unmodelled else .syntaxErr
+          | [] =>
+            if ip.length + fp.length > 18 then .unmodelled
+            else
+              let e := fp.length
+              let m := digitsVal (ip ++ fp)          -- value = m / 10^e
+              if m % (5 ^ e) != 0 then .unmodelled
+              else
+                let m' := m / (5 ^ e)                -- value = m' / 2^e
+                if m' ≥ 9007199254740992 then .unmodelled
+                else
+                  let f := (Float.ofNat m').scaleB (-(e : Int))
+                  .ok (if neg then -f else f)
+
+/-! ## JSON text (`encoding/json`, go1.23) -/
+
+def hexDigit (n : Nat) : Char := "0123456789abcdef".toList.getD n '0'
+
+/-- `appendString(dst, s, escapeHTML = true)`: how `json.Marshal` writes a string / an object key. -/
+def jsonString (s : String) : String :=
+  let esc (c : Char) : List Char :=
+    if c == '\\' || c == '"' then ['\\', c]
+    else if c.toNat == 8 then ['\\', 'b']
+    else if c.toNat == 12 then ['\\', 'f']
+    else if c == '\n' then ['\\', 'n']
+    else if c == '\r' then ['\\', 'r']
+    else if c == '\t' then ['\\', 't']
+    else if c.toNat < 32 || c == '<' || c == '>' || c == '&' then
+      ['\\', 'u', '0', '0', hexDigit (c.toNat / 16), hexDigit (c.toNat % 16)]
+    else if c.toNat == 0x2028 then ['\\', 'u', '2', '0', '2', '8']
+    else if c.toNat == 0x2029 then ['\\', 'u', '2', '0', '2', '9']
+    else [c]
+  String.ofList (['"'] ++ (s.toList.map esc).flatten ++ ['"'])
+
+/-- `jsonFloat.MarshalJSON` (`runtime/value/json.go`): `strconv.AppendFloat(nil, n, 'f', prec, 64)` with
+`prec = 1` for whole numbers and the shortest digits otherwise; for the dyadic-safe class of `fmtFloat`
+(a fractional value of that class is below 65536 and at least 2^-10: `'f'` and `%v` print it alike). -/
+def jsonFloat? (f : Float) : Option String :=
+  if f.isNaN || f.isInf then none
+  else
+    let neg := f < 0 || (f == 0 && f.toBits != 0)
+    let a := f.abs
+    if a ≥ 9007199254740992.0 then none
+    else if a.floor == a then some ((if neg then "-" else "") ++ toString a.toUInt64.toNat ++ ".0")
+    else fmtFloat f
+
+def isJsonWs (c : Char) : Bool := c == ' ' || c == '\t' || c == '\r' || c == '\n'
+def jsonSkipWs (cs : List Char) : List Char := cs.dropWhile isJsonWs
+
+def hexVal? (c : Char) : Option Nat :=
+  if '0' ≤ c && c ≤ '9' then some (c.toNat - '0'.toNat)
+  else if 'a' ≤ c && c ≤ 'f' then some (c.toNat - 'a'.toNat + 10)
+  else if 'A' ≤ c && c ≤ 'F' then some (c.toNat - 'A'.toNat + 10)
+  else none
+
+/-- The rest of a JSON string literal after the opening quote: the decoded text and what follows the
+closing quote. `none`: not a string literal of the decided class (raw control characters and bad
+escapes are errors of the decoder; surrogate escapes are not modelled). -/
+def jsonStringBody : Nat → List Char → List Char → Option (String × List Char)
+  | 0, _, _ => none
+  | _ + 1, _, [] => none
+  | n + 1, acc, c :: rest =>
+    if c == '"' then some (String.ofList acc.reverse, rest)
+    else if c == '\\' then
+      match rest with
+      | 'u' :: h1 :: h2 :: h3 :: h4 :: rest' =>
+        match hexVal? h1, hexVal? h2, hexVal? h3, hexVal? h4 with
+        | some a, some b, some c', some d =>
+          let code := ((a * 16 + b) * 16 + c') * 16 + d
+          if 0xD800 ≤ code && code ≤ 0xDFFF then none
+          else jsonStringBody n (Char.ofNat code :: acc) rest'
+        | _, _, _, _ => none
+      | e :: rest' =>
+        let dec : Option Char :=
+          if e == '"' then some '"' else if e == '\\' then some '\\' else if e == '/' then some '/'
+          else if e == 'b' then some (Char.ofNat 8) else if e == 'f' then some (Char.ofNat 12)
+          else if e == 'n' then some '\n' else if e == 'r' then some '\r' else if e == 't' then some '\t'
+          else none
+        match dec with
+        | some ch => jsonStringBody n (ch :: acc) rest'
+        | none => none
+      | [] => none
+    else if c.toNat < 32 then none
+    else jsonStringBody n (c :: acc) rest
+
+inductive JsonNum where
+  | int (i : I64)
+  | float (f : Float)
+  deriving Inhabited
+
+/-- A JSON number (`-?(0|[1-9][0-9]*)(\.[0-9]+)?`, no exponent) of the class `goParseFloat` decides, as
+`UnmarshalValue` turns it into a value: an int when `float64(int64(x)) == x`, else a float. -/
+def jsonNumber? (cs : List Char) : Option JsonNum :=
+  let body := match cs with | '-' :: r => r | _ => cs
+  let ip := body.takeWhile (· != '.')
+  let grammarOk := match ip with
+    | ['0'] => true
+    | '0' :: _ => false
+    | _ => allDigits ip
+  let afterIp := body.drop ip.length
+  let fracOk := match afterIp with
+    | [] => true
+    | '.' :: fp => allDigits fp
+    | _ => false
+  if !grammarOk || !fracOk || cs.head? == some '+' then none
+  else
+    match goParseFloat cs with
+    | .ok f =>
+      match floatToI64? f with
+      | some i => if i64ToFloat i == f then some (.int i) else some (.float f)
+      | none => none
+    | _ => none
+
+/-! ## Levenshtein distance (`github.com/agnivade/levenshtein` v1.1.1 `ComputeDistance`, used by `compare_lev`) -/
+
+/-- One pass of the inner loop: the new row from the old one (`x`), for the character `c2` of the
+longer string; `prev` is the new row's entry to the left. -/
+def levRow (c2 : Char) : List Char → List Nat → Nat → List Nat
+  | c1 :: s1, o0 :: o1 :: os, prev =>
+    let cur := if c2 == c1 then o0 else min (min (o0 + 1) (prev + 1)) (o1 + 1)
+    prev :: levRow c2 s1 (o1 :: os) cur
+  | _, _, prev => [prev]
+
+def levRows (s1 : List Char) : List Char → Nat → List Nat → List Nat
+  | [], _, row => row
+  | c2 :: s2, i, row => levRows s1 s2 (i + 1) (levRow c2 s1 row i)
+
+/-- `ComputeDistance(a, b)` on code points; `none` beyond 10000 characters (the Go code counts in `uint16`). -/
+def goLevenshtein? (a b : List Char) : Option Nat :=
+  if a.isEmpty then some b.length
+  else if b.isEmpty then some a.length
+  else if a == b then some 0
+  else if a.length > 10000 || b.length > 10000 then none
+  else
+    let (s1, s2) := if a.length > b.length then (b, a) else (a, b)
+    (levRows s1 s2 1 (List.range (s1.length + 1))).getLast?
 
 /-! ## Sorting (`insertionSortInt/Float/String` of `valueList.go`) -/
 
